@@ -127,6 +127,73 @@ func missingTokens(in, out string) []string {
 	return miss
 }
 
+// reordered: the clause skeleton of the re-emission differs from the input's - a clause moved across another one.
+// (Inside a clause the emitter is free to order what has no order, e.g. the keys of a map literal.)
+var clauseWords = map[string]bool{"w:match": true, "w:optional": true, "w:unwind": true, "w:with": true, "w:create": true, "w:merge": true, "w:set": true,
+	"w:delete": true, "w:detach": true, "w:remove": true, "w:return": true, "w:where": true, "w:order": true, "w:skip": true, "w:limit": true, "w:union": true,
+	"w:on": true, "w:foreach": true, "w:call": true, "w:yield": true, "w:distinct": true}
+
+func reordered(in, out string) bool {
+	seq := func(q string) []string {
+		var ts []string
+		for _, t := range contentTokens(q) {
+			if clauseWords[t] {
+				ts = append(ts, t)
+			}
+		}
+		return ts
+	}
+	a, b := seq(in), seq(out)
+	if len(a) != len(b) {
+		return false
+	}
+	for i := range a {
+		if a[i] != b[i] {
+			return true
+		}
+	}
+	return false
+}
+
+// multiPart: queries of one to three parts joined by WITH, every part an optional reading clause followed by an optional
+// updating clause - every position of a clause relative to the WITHs around it.
+func multiPart() []string {
+	reading := []string{"", "match (a)-->(b)", "unwind [1, 2] as u", "optional match (a)-[r:E]->(c)"}
+	updating := []string{"", "create (c:K)", "set a.x = 1", "delete a", "merge (d:K {k: 1})", "remove a.y", "detach delete a"}
+	withs := []string{"with a", "with a, 1 as one where a.z = 2", "with distinct a order by a.x limit 3"}
+	var parts []string
+	for _, r := range reading {
+		for _, u := range updating {
+			if p := strings.TrimSpace(r + " " + u); p != "" {
+				parts = append(parts, p)
+			}
+		}
+	}
+	var out []string
+	for i, p1 := range parts {
+		out = append(out, "match (a) with a "+p1+" return a")
+		for j, p2 := range parts {
+			if (i+j)%3 == 0 {
+				out = append(out, "match (a) "+withs[(i+j)%len(withs)]+" "+p1+" "+withs[(i*j)%len(withs)]+" "+p2+" return a")
+			}
+			if (i+2*j)%7 == 0 {
+				out = append(out, "match (a) "+p1+" with a "+p2+" with a "+parts[(i*j+1)%len(parts)]+" return a")
+			}
+		}
+	}
+	return out
+}
+
+// preciseLiterals: literals whose value needs every bit of its type to be kept.
+func preciseLiterals() []string {
+	var out []string
+	for _, lit := range []string{"0.123456789012", "3.14159265358979", "16777217.0", "123456789.123456789", "1e300", "1.7976931348623157e308", "4.9e-324", "0.000001234",
+		"1e21", "1e-7", "9007199254740993", "9223372036854775807", "-9223372036854775808", "0x7fffffffffffffff", "0.30000000000000004", "100000000000000000000.0"} {
+		out = append(out, "match (n) where n.x = "+lit+" return n", "match (n) return "+lit+" as v", "match (n {p: "+lit+"}) return n", "match (n) return [1, "+lit+"] as l", "match (n) set n.x = "+lit)
+	}
+	return out
+}
+
 // Faithful checks, for every text the parser accepts, that the model denotes the text: emit(parse(t)) parses again,
 // to an equal model, emits the same text again, and contains the content tokens of t.
 func Faithful(args []string) {
@@ -136,22 +203,28 @@ func Faithful(args []string) {
 	fs.Parse(args)
 	var texts []fuzzInput
 	for _, c := range Corpus() {
-		texts = append(texts, fuzzInput{c.Text, "corpus:" + c.Tag})
+		texts = append(texts, fuzzInput{text: c.Text, class: "corpus:" + c.Tag})
 	}
 	for _, in := range fuzzInputs(nil0(), 0, false) {
 		if in.class == "statement" {
 			texts = append(texts, in)
 		}
 	}
+	for _, q := range multiPart() {
+		texts = append(texts, fuzzInput{text: q, class: "multipart"})
+	}
+	for _, q := range preciseLiterals() {
+		texts = append(texts, fuzzInput{text: q, class: "precise-literal"})
+	}
 	if *sk != "" {
 		for _, s := range tr.ReadLines[Skeleton](*sk) {
-			texts = append(texts, fuzzInput{render(s), "skeleton"})
+			texts = append(texts, fuzzInput{text: render(s), class: "skeleton"})
 		}
 	}
 	w := tr.Create(*outp)
 	for hid, in := range texts {
 		ev := map[string]any{"e": "c07", "hid": hid, "class": in.class, "text": clip(in.text), "accepted": false, "panic": false, "reparse_ok": false,
-			"fixpoint": false, "tokens_ok": false, "missing": []string{}, "emitted": ""}
+			"fixpoint": false, "tokens_ok": false, "order_ok": false, "missing": []string{}, "emitted": ""}
 		func() {
 			defer func() {
 				if r := recover(); r != nil {
@@ -188,6 +261,7 @@ func Faithful(args []string) {
 			miss := missingTokens(in.text, t1)
 			ev["missing"] = miss
 			ev["tokens_ok"] = len(miss) == 0
+			ev["order_ok"] = len(miss) > 0 || !reordered(in.text, t1)
 		}()
 		w.Emit(ev)
 	}
